@@ -148,7 +148,8 @@ def run_variant(entry: Dict[str, Any], repo: str = "/repo") -> Dict[str, Any]:
         if entry["kind"] == "break":
             want_rule = entry.get("expect_rule")
             want_key = entry.get("expect_key")
-            hit = [v for v in viols if (not want_rule or v.startswith(want_rule + " ")) and (not want_key or want_key in v)]
+            want_rules = [want_rule] if isinstance(want_rule, str) else list(want_rule or [])
+            hit = [v for v in viols if (not want_rules or any(v.startswith(r + " ") for r in want_rules)) and (not want_key or want_key in v)]
             if p.returncode == 1 and hit:
                 res["status"] = "ok"
             elif p.returncode == 1:
